@@ -135,3 +135,15 @@ func vParam(name string, def int) int {
 	}
 	return def
 }
+
+// vAnd / vOr: conjunction / disjunction without short-circuit (no fork in the engine).
+func vAnd(a, b bool) bool { return a && b }
+func vOr(a, b bool) bool  { return a || b }
+
+// vIte: branch-free integer select.
+func vIte(c bool, a, b int) int {
+	if c {
+		return a
+	}
+	return b
+}
